@@ -2,6 +2,7 @@
 from __future__ import annotations
 
 import ast
+import re
 
 from .. import facts, fitrules
 from ..astutil import (call_name, calls_in, const_str, dotted, kwarg, literal,
@@ -120,6 +121,22 @@ def _kind_of_value(body, valvar, writer, key=None, var="key"):
                     v = ast.Call(func=_DISPATCH[v.func.value.id][key],
                                  args=v.args, keywords=v.keywords)
                 t = norm(v)
+                # formatting with a precision / general format keeps only
+                # part of the digits
+                specs = [norm(x.format_spec) for x in ast.walk(v)
+                         if isinstance(x, ast.FormattedValue)
+                         and x.format_spec is not None]
+                if isinstance(v, ast.Call) and isinstance(
+                        v.func, ast.Attribute) and v.func.attr == "format" \
+                        and isinstance(v.func.value, ast.Constant) and \
+                        re.search(r"\{[^}]*:[^}]+\}", str(v.func.value.value)):
+                    specs.append(str(v.func.value.value))
+                if isinstance(v, ast.BinOp) and isinstance(
+                        v.op, ast.Mod) and isinstance(v.left, ast.Constant) \
+                        and isinstance(v.left.value, str):
+                    specs.append(v.left.value)
+                if specs:
+                    return f"formatted with {specs[0]!r} (digits are lost)"
                 if isinstance(v, ast.Call):
                     cn = call_name(v) or ""
                     if not cn and isinstance(v.func, ast.Attribute):
